@@ -39,6 +39,7 @@ import (
 	"google.golang.org/grpc/internal/envconfig"
 	imem "google.golang.org/grpc/internal/mem"
 	"google.golang.org/grpc/internal/transport/internal"
+	"google.golang.org/grpc/internal/verifhook"
 	"google.golang.org/grpc/keepalive"
 	"google.golang.org/grpc/mem"
 	"google.golang.org/grpc/metadata"
@@ -116,6 +117,7 @@ func (b *recvBuffer) init(pool mem.BufferPool) {
 }
 
 func (b *recvBuffer) put(r recvMsg) {
+	verifhook.Point("recvbuf.put.begin")
 	b.mu.Lock()
 	defer b.mu.Unlock()
 	if b.err != nil {
@@ -201,6 +203,7 @@ func (b *recvBuffer) compactBacklogLocked(r recvMsg) {
 }
 
 func (b *recvBuffer) load() {
+	verifhook.Point("recvbuf.load.begin")
 	b.mu.Lock()
 	if len(b.backlog) > 0 {
 		select {
